@@ -4,10 +4,33 @@ From C15 Require Import C15Spec C15Model C15Proofs C15_gen.
 Import ListNotations.
 Local Open Scope R_scope.
 
-Ltac tie := intros; unfold geo_model, ratio, rfu_uniform; cbv zeta;
+Ltac nzl := first [assumption | lra |
+  match goal with H : ~ Rabs ?x < ?p |- ?x <> 0 => let E := fresh in intro E; apply H; rewrite E, Rabs_R0; lra end].
+Ltac req_n n := lazymatch n with
+  | O => fail
+  | S ?k => first [reflexivity | (field; repeat split; nzl) | (progress f_equal; req_n k)]
+  end.
+Ltac req := req_n 6%nat.
+Lemma lt_eq a b c d : a < b -> c = a -> d = b -> c < d.
+Proof. intros; subst; assumption. Qed.
+Ltac contra := exfalso; match goal with H1 : ?a < ?b, H2 : ~ ?c < ?d |- _ => apply H2; apply (lt_eq a b c d H1); req end.
+(* canonical spelling: sub-terms under sqrt and the ratio r are unified up to field equalities, so that the tie does not
+   depend on how the C++ spells them *)
+Ltac unify_sqrt := repeat match goal with |- context [sqrt ?M1] => match goal with |- context [sqrt ?M2] =>
+   tryif constr_eq M1 M2 then fail else (replace M2 with M1 by (field; repeat split; nzl)) end end.
+Ltac unify_r := repeat match goal with |- context [Rabs (?A1 - 1)] => match goal with |- context [Rabs (?A2 - 1)] =>
+   tryif constr_eq A1 A2 then fail else (replace A2 with A1 by (field; repeat split; nzl)) end end.
+Ltac split_nosqrt_test :=
+  match goal with |- context [if ?c then _ else _] =>
+    lazymatch c with context [sqrt _] => fail | context [if _ then _ else _] => fail | _ => destruct c end end.
+Ltac tie := intros;
+  match goal with |- _ = geo_model _ _ ?xb ?xe ?db ?de _ =>
+    generalize (ratio_pos xb xe db de); destruct (Req_dec (xe - xb) 0) end;
+  unfold geo_model, ratio, rfu_uniform; cbv zeta; 
   cbn [loop set_last removelast app INR];
-  repeat split_simple_test; try discriminate; try lia;
-  first [reflexivity | apply f_equal; list_eq ltac:(field; repeat split; try assumption; try lra)].
+  [ match goal with H : _ = 0 |- _ => rewrite !H, !Rabs_R0 end; intros _; destruct (Rlt_dec 0 _); [reflexivity | exfalso; lra]
+  | repeat split_nosqrt_test; unify_sqrt; unify_r; repeat split_simple_test; intros Hrpos; try discriminate; try lia;
+    first [reflexivity | (apply f_equal; list_eq ltac:(req)) | contra] ].
 
 Definition the_prec := 22250738585072014 / 10 ^ 322.
 Lemma tie_1 xb xe db de : geo_gen_1 xb xe db de = geo_model the_prec rfu_uniform xb xe db de 1.
@@ -15,6 +38,6 @@ Proof. unfold geo_gen_1, the_prec. tie. Qed.
 Lemma tie_2 xb xe db de : geo_gen_2 xb xe db de = geo_model the_prec rfu_uniform xb xe db de 2.
 Proof. unfold geo_gen_2, the_prec. tie. Qed.
 Lemma tie_3 xb xe db de : geo_gen_3 xb xe db de = geo_model the_prec rfu_uniform xb xe db de 3.
-Proof. unfold geo_gen_3, the_prec. tie. Show. Qed.
+Proof. unfold geo_gen_3, the_prec. tie. Qed.
 Lemma tie_4 xb xe db de : geo_gen_4 xb xe db de = geo_model the_prec rfu_uniform xb xe db de 4.
 Proof. unfold geo_gen_4, the_prec. tie. Qed.
